@@ -456,7 +456,9 @@ def snapCheck (st : St) (toks : List String) (opS impl : String) : List (String 
   let isObs := (op == "poll" && toks.getLast? == some "0") || op == "get-offset" || isCat || isPlain
   let isIdentity := op == "flush" || op == "save" || op == "restart" || op == "evict" || op == "clock" ||
     op == "topic" || op == "stats" || op == "cacheinfo" || op == "ls" || (op.startsWith "scan") || op == "ping" ||
-    op == "group" || op == "me" || op == "conn" || op == "login" || op == "pats"
+    op == "group" || op == "me" || op == "conn" || op == "login" || op == "pats" ||
+    -- C13: a frame that is not a valid request leaves everything untouched
+    op == "raw-open" || op == "raw-send" || op == "raw-refused" || op == "raw-close"
   if isObs then
     match st.snap.find? (fun e => e.1 == opS) with
     | some e =>
@@ -1188,6 +1190,16 @@ def stepLine (st : St) (raw : String) : St × List String :=
       let overl := st.xpolls.filter (fun p => st.xacks.any (fun a => a.1 < p.2.1 && p.1 < a.2.1))
       let cov := (st.cov ++ [("x:polls-overlapping-a-send", overl.length)])
       ({ st with specViol := st.specViol + v.length, xacks := [], xlin := [], xpolls := [], cov := cov }, msgs0 ++ v)
+    else if toks.headD "" == "raw-refused" then
+      -- C13: the body of this frame is a mutated valid command that the codec model refuses, sent on an
+      -- authenticated connection: the server must not answer with a success status
+      let kind := (implS.splitOn " ").headD ""
+      let okStatus := kind == "resp" && (implS.splitOn " ").getD 1 "" == "0"
+      let st := { st with cov := bump st.cov ("refused:" ++ (if okStatus then "resp-ok" else if kind == "resp" then "resp-error" else kind)) }
+      if okStatus then
+        ({ st with specViol := st.specViol + 1 }, msgs0 ++ [s!"SPEC-VIOL {st.line} class=malformed-frame-accepted op={opS.trimAscii.toString} impl={implS}"])
+      else if kind == "resp" || kind == "closed" || kind == "timeout" || kind == "panic" then (st, msgs0)
+      else ({ st with specViol := st.specViol + 1 }, msgs0 ++ [s!"SPEC-VIOL {st.line} class=malformed-frame-effect impl={implS}"])
     else if toks.headD "" == "raw-send" then
       -- C13: a frame that is not a valid request is answered with an error status, a closed
       -- connection, or silence (the server is waiting for the rest of a declared length)
